@@ -43,3 +43,7 @@ claim("C20", "static: symbolic byte layout of the stamp (big-endian table), shif
       "Decides the 8-byte big-endian microsecond format on both sides, that nothing reaches the user's writer before the frame is known to be encodable, that all I/O errors are returned, that the reader shares one bufio.Reader with the frame reader and builds an Entry only after both reads succeeded. Round trips and cut-point behaviour are not observed.",
       "Trusts bytes.Buffer, io.ReadFull, time.Unix/UnixMicro.",
       "DESIGN.md §5 C20")
+claim("C08", "static: region analysis of frame mutations (edge-cut), who-may-write table of frame header fields, interprocedural checksum/payload coherence typestate with feasible-path enumeration (type-test correlation, closed-world frame kinds), ordering in FixFrame (go/ssa)",
+      "Decides that without a dialect nothing modifies a parsed or written frame, that header fields are only written by parsers/originators, that wherever a frame's message is re-encoded or its payload trimmed the checksum is regenerated before the frame is marshalled / queued / returned, and FixFrame's encode→checksum→signature order. Byte identity and next-hop decode equality are not observed.",
+      "Trusts SSA; 'stale on return' summaries are context-insensitive (conservative).",
+      "DESIGN.md §5 C08")
